@@ -77,10 +77,10 @@ ADMIN_ROLE = {
 BANK_VAULTS = {'liquidity_vault': 'liquidity_vault', 'bank_liquidity_vault': 'liquidity_vault', 'insurance_vault': 'insurance_vault', 'bank_insurance_vault': 'insurance_vault', 'fee_vault': 'fee_vault'}
 
 
-def mk_struct_task(sn):
+def mk_struct_task(sn, prefix='C08.b.'):
     def task(world):
         T = all_try_accounts(world)
-        ob = Ob('C08.b.' + sn, f'{sn}: acceptance condition of the Anchor constraint code implies the reference condition (no constraint lost), signer/has_one/PDA rules',
+        ob = Ob(prefix + sn, f'{sn}: acceptance condition of the Anchor constraint code implies the reference condition (no constraint lost), signer/has_one/PDA rules',
                 [T[sn].name] if sn in T else [], 'loop-free generated code; every accepting path; keys uninterpreted; predicates (pause, authorisation, tags) inlined from their MIR')
         if sn not in T:
             ob.fail('instruction struct disappeared from the program'); return [ob]
@@ -155,3 +155,11 @@ _t0 = tasks
 def tasks(tier):
     return _t0(tier) + [('accounts:' + sn, mk_struct_task(sn)) for sn in sorted(set(GOLDEN) | set())]
 WORLD = ('marginfi', 'typecrate', 'drift', 'kamino', 'solend')
+
+
+def shared_struct_tasks(prefix, names):
+    """the same constraint-set obligations under another property's id (the property's own check must see a lost constraint on ITS instructions)"""
+    missing = [n for n in names if n not in GOLDEN]
+    if missing: raise LookupError(f'instruction structs not in the reference table: {missing}')
+    return [('accounts:' + sn, mk_struct_task(sn, prefix)) for sn in names]
+
